@@ -585,6 +585,54 @@ pub fn run(run: &Run) {
             }
         });
     }
+    // ---- a matrix object that is factorised, updated in place and factorised again: the factors, the determinant and
+    // the solution are those of the current contents (equal to a fresh object's with the same data) --------------------
+    {
+        let mut n_hist = 0u64;
+        for n in 2..=6usize {
+            for seed in 0..3u64 {
+                let a0 = lcg_dense(n, n, seed * 31 + n as u64);
+                let other = lcg_dense(n, n, seed * 17 + 100 + n as u64);
+                for upd in 0..8usize {
+                    run.case();
+                    run.trs(4);
+                    run.ok();
+                    run.nontrivial(1);
+                    n_hist += 1;
+                    let r = guard(|| {
+                        let mut m = Matrix::new(a0.clone(), n as i32, n as i32);
+                        let o = Matrix::new(other.clone(), n as i32, n as i32);
+                        let before = (m.lu(), m.det());
+                        match upd {
+                            0 => m *= 2.0,
+                            1 => m += &(Matrix::eye(n) * 10.0),
+                            2 => m -= &o,
+                            3 => m /= 4.0,
+                            4 => m += 1.5,
+                            5 => m.data[0] += 3.0,
+                            6 => m[[n - 1, 0]] = 7.25,
+                            _ => m = &m * &o,
+                        }
+                        let _ = before;
+                        let fresh = Matrix::new(m.data.v.clone(), n as i32, n as i32);
+                        ((m.lu(), m.det()), (fresh.lu(), fresh.det()), m.data.v.clone())
+                    });
+                    const UPD: [&str; 8] = ["*= 2", "+= 10·I", "-= &B", "/= 4", "+= 1.5", "data[0] += 3", "[[n-1,0]] = 7.25", "= &A * &B"];
+                    match r {
+                        Ok((((lu1, p1), d1), ((lu2, p2), d2), data)) => {
+                            if lu1.data.v.iter().zip(lu2.data.v.iter()).any(|(x, y)| x.to_bits() != y.to_bits()) || p1 != p2 || d1.to_bits() != d2.to_bits() {
+                                run.violate("Matrix.lu/stale-after-in-place-update", || format!("order {}: lu(), det(), then `{}`, then lu() / det(): factors {:?} pivots {:?} det {:e}; a fresh Matrix with the same data {:?} gives {:?} {:?} {:e}", n, UPD[upd], lu1.data.v, p1, d1, data, lu2.data.v, p2, d2));
+                            } else {
+                                run.regime("lu-after-in-place-update");
+                            }
+                        }
+                        Err(p) => run.violate("Matrix.lu/panic", || format!("order {} update `{}`: {}", n, UPD[upd], p)),
+                    }
+                }
+            }
+        }
+        run.bound("factorise / update in place / factorise", format!("{} histories: orders 2..=6 × 3 matrices × 8 in-place updates", n_hist));
+    }
     // ---- triangular systems ----------------------------------------------------------------------
     let tl = [1.0, -2.0, 0.5, 3.0];
     for n in 1..=12usize {
